@@ -452,3 +452,82 @@ def rewritten_synced_slots(dec, sync_req_idx, targeted):
         if list(b) != sl.get(a, []):
             out.append((gc, a, sl.get(a, []), list(b), ri))
     return out
+
+
+def parse_coq_cells(out):
+    """output of `qdrv cells` -> {path: (nodup, rc dict, slots dict) or None}"""
+    res = {}
+    cur = None
+    for ln in out.split('\n'):
+        tk = ln.split()
+        if not tk:
+            continue
+        if tk[0] == 'case':
+            cur = tk[1]
+            if len(tk) > 2 and tk[2].startswith('nodup='):
+                res[cur] = [tk[2] == 'nodup=1', {}, {}]
+            else:
+                res[cur] = None
+        elif tk[0] == 'R' and res.get(cur):
+            res[cur][1].setdefault(int(tk[1]), int(tk[2]))
+        elif tk[0] == 'S' and res.get(cur):
+            res[cur][2].setdefault(int(tk[1]), [int(x) for x in tk[2:]])
+    return res
+
+
+def drop_self_covered(rc, sl, h):
+    """the convention of `decode` for refcount blocks that cover themselves, applied to a literal abstraction"""
+    cs = 1 << h['cb']
+    rbe = (cs * 8) >> h['ro']
+    rc, sl = dict(rc), dict(sl)
+    for k in range(h['rt_clusters'] * cs // 8):
+        o = h['rt_off'] + 8 * k
+        t = sl.get(o)
+        if t and len(t) == 1 and self_covered(t[0], k, rbe) and rc.get(t[0]) == 1:
+            del sl[o]
+            del rc[t[0]]
+    return {k: v for k, v in rc.items() if v}, {k: v for k, v in sl.items() if v}
+
+
+def check_syncs_coq(dec, workdir, cid, qdrv):
+    """the state the decoder reaches at every sync point equals the abstraction `cells` of the durable image computed
+    by the extracted Coq definition (Spec/Cells.v; theorem cells_safe_iff gives its meaning)"""
+    import os, subprocess
+    paths = []
+    for k, (ei, img) in enumerate(dec['syncs']):
+        p = os.path.join(workdir, '%s.sy%d.img' % (cid, k))
+        open(p, 'wb').write(img)
+        paths.append(p)
+    if not paths:
+        return None
+    lst = os.path.join(workdir, '%s.sy.lst' % cid)
+    open(lst, 'w').write('\n'.join(paths) + '\n')
+    out = subprocess.run('ulimit -s unlimited; exec %s cells %s' % (qdrv, lst), shell=True, stdout=subprocess.PIPE,
+                         stderr=subprocess.DEVNULL, text=True, timeout=900).stdout
+    res = parse_coq_cells(out)
+    bad = None
+    for k, (ei, img) in enumerate(dec['syncs']):
+        r = res.get(paths[k])
+        if not r:
+            bad = 'sync point at event %d: the specification does not read the durable image' % ei
+            break
+        if not r[0]:
+            bad = 'sync point at event %d: two table entries share a file offset' % ei
+            break
+        rc2, sl2 = drop_self_covered(r[1], r[2], dec['h'])
+        rc, sl = abstract_after(dec, ei)
+        # clusters that nothing references carry no constraint: the Coq abstraction lists refcounts of referenced clusters only
+        referenced = set(x for t in sl2.values() for x in t) | set(x for t in sl.values() for x in t)
+        rc = {c: v for c, v in rc.items() if c in referenced}
+        rc2 = {c: v for c, v in rc2.items() if c in referenced}
+        if rc != rc2:
+            ks = [c for c in sorted(set(rc) | set(rc2)) if rc.get(c, 0) != rc2.get(c, 0)]
+            bad = 'sync point at event %d: refcount cell %d is %s by events, %s in the Coq abstraction of the image' % (ei, ks[0], rc.get(ks[0], 0), rc2.get(ks[0], 0))
+            break
+        if sl != sl2:
+            ks = [c for c in sorted(set(sl) | set(sl2)) if sl.get(c, []) != sl2.get(c, [])]
+            bad = 'sync point at event %d: slot %d is %s by events, %s in the Coq abstraction of the image' % (ei, ks[0], sl.get(ks[0], []), sl2.get(ks[0], []))
+            break
+    for p in paths + [lst]:
+        os.remove(p)
+    return bad
